@@ -76,6 +76,8 @@ def extra_events(w):
             evs.append(("expire",))
     if mode in ("silent", "blackhole") and w.g["silent_at"] is None and w.sides[0].manager._connection is not None:
         evs.append(("silence",))
+    if w.cfg.get("stops") and w.g.get("stopped_at") is None:
+        evs.append(("stop",))
     return evs
 
 
@@ -91,6 +93,13 @@ def extra_apply(w, ev):
     if k == "expire":
         w.g["ticks"] += 1
         w._do(("timer",))
+        return True
+    if k == "stop":
+        # the application closes the wormhole: Terminator -> Dilator.stop() on the Leader
+        w.g["stopped_at"] = w.now
+        w.g["pings_at_stop"] = len(w.g["pings"])
+        w.g["disconnects_at_stop"] = len(w.g["disconnects"])
+        w._guard("stop", w.sides[0].dilator.stop)
         return True
     if k == "silence":
         w.g["silent_at"] = w.now
@@ -117,6 +126,15 @@ def mon(w):
     for (tname, msg, site) in w.__dict__.get("swallowed", ()):
         if site.startswith("manager.py") and not any(e[0] == tname for e in w.errors):
             w.flag("no-exception", "in-callback:%s@%s" % (tname, site), "%s raised inside a Deferred callback at %s: %s" % (tname, site, msg))
+    if g.get("stopped_at") is not None:
+        # monitoring stops when dilation is stopped: no ping, no monitor-initiated disconnect afterwards
+        if len(g["pings"]) > g["pings_at_stop"]:
+            w.flag("monitor-lifecycle", "ping-after-stop", "dilation was stopped at t=%.3f but the monitor sent a ping at t=%.3f" % (
+                g["stopped_at"], g["pings"][-1][1]))
+        if len(g["disconnects"]) > g["disconnects_at_stop"]:
+            w.flag("monitor-lifecycle", "disconnect-after-stop", "dilation was stopped at t=%.3f but the monitor signalled a reconnect at t=%.3f" % (
+                g["stopped_at"], g["disconnects"][-1][0]))
+        return
     if w.cfg["mode"] == "responsive" and g["disconnects"]:
         w.flag("never-drop-responsive", "dropped", "every ping was answered in under one interval, but the monitor disconnected at t=%r; pings %r" % (
             g["disconnects"], [(round(p[1], 3), None if p[2] is None else round(p[2], 3)) for p in g["pings"]]))
@@ -216,6 +234,9 @@ def scenarios(tier):
         S.append(mk("silent-I%g" % I, "silent", I, max_ticks=14 if q else 18, max_depth=40 if q else 60, max_states=400000))
     # only the path in use goes dead; the replacement connection works and must be adopted and monitored
     S.append(mk("blackhole-I1-dev", "blackhole", 1.0, max_ticks=12 if q else 16, dev_bound=3 if q else 4, max_depth=80))
+    # dilation is stopped (wormhole closed) at any moment; the transport's close may linger while time passes
+    S.append(mk("responsive-stop-I1", "responsive", 1.0, stops=True, max_ticks=8, max_depth=60, max_states=400000,
+                explored=("deliver", "lose", "tick", "expire", "silence", "stop", "close")))
     S.append(mk("responsive-lose1-I1", "responsive", 1.0, lose=1, lose_both=True, max_ticks=8, dev_bound=3 if q else 4, max_depth=80))
     S.append(mk("silent-lose1-I1", "silent", 1.0, lose=1, lose_both=True, max_ticks=10, dev_bound=3 if q else 4, max_depth=80))
     return S
